@@ -411,8 +411,8 @@ Proof.
     apply wfprog_seq; [apply wfprog_ex, pres_ins_iso|]. apply wfprog_seq.
     + apply wfprog_for. intro. apply wfprog_ex, pres_ins_iprop.
     + apply wfprog_for. intros [[ty dty] data]. apply wfprog_ex, pres_ins_idata.
-  - apply wfprog_bind; [|intro; exact I]. unfold iso_get. apply wfprog_bind; [apply wfprog_ex; unfold sel_isos; apply pres_read|]. intro rs.
-    generalize (chunks (S (length rs)) 100 rs). intro cs. induction cs as [|ch cs IH]; [exact I|].
+  - apply wfprog_bind; [|intro; exact I]. unfold iso_get, iso_get_n. apply wfprog_bind; [apply wfprog_ex; unfold sel_isos; apply pres_read|]. intro rs.
+    generalize (chunks (S (length rs)) iso_batch rs). intro cs. induction cs as [|ch cs IH]; [exact I|]. cbn [iso_get_chunks].
     apply wfprog_bind; [apply wfprog_ex; unfold sel_iprops_in; apply pres_read|]. intro ps.
     apply wfprog_bind; [apply wfprog_ex; unfold sel_idata_in; apply pres_read|]. intro ds.
     apply wfprog_bind; [exact IH|]. intro; exact I.
@@ -430,7 +430,7 @@ Proof.
   { apply wfprog_seq; auto. apply wfprog_ex. unfold pragma_fk. intros d0 b d0' H E. inversion E; subst; auto. }
   pose proof (run_wf _ flt (mkSt d r 0) Hw Hd) as Hs.
   destruct (run flt (seqP (ex pragma_fk) p) (mkSt d r 0)) as [res s]. simpl in Hs.
-  destruct res as [a|e]; [destruct cf | destruct e]; simpl; auto.
+  destruct res as [a|e]; [destruct cf as [| | |e1]; [| | |destruct e1] | destruct e]; simpl; auto.
 Qed.
 Theorem faulted_op_wf : forall o flt cf d r, wf d -> wf (db_after (with_conn flt cf (body o) d r)).
 Proof. intros. apply with_conn_wf; auto. apply wfprog_body. Qed.
